@@ -472,6 +472,8 @@ def bip38_decrypt(encrypted_privkey, password):
     :return tuple (bytes, bytes, boolean, dict): (Private Key bytes, 4 byte address hash for verification, compressed?, dictionary with additional info)
     """
     d = change_base(encrypted_privkey, 58, 256)
+    if d[-4:] != double_sha256(d[:-4])[:4]:
+        raise EncodingError("Invalid BIP38 encrypted key, checksum incorrect")
     identifier = d[0:2]
     flagbyte = d[2:3]
     address_hash: bytes = d[3:7]
@@ -1695,6 +1697,8 @@ class HDKey(Key):
         bkey = change_base(wif, 58, 256)
         if len(bkey) != 82:
             raise BKeyError("Invalid BIP32 HDkey WIF. Length must be 82 characters")
+        if bkey[-4:] != double_sha256(bkey[:-4])[:4]:
+            raise BKeyError("Invalid BIP32 HDkey WIF. Checksum incorrect")
 
         if ord(bkey[45:46]):
             is_private = False
@@ -1808,6 +1812,8 @@ class HDKey(Key):
                 network = Network(check_network_and_key(import_key, network, kf["networks"]))
                 if kf['format'] in ['hdkey_private', 'hdkey_public']:
                     bkey = change_base(import_key, 58, 256)
+                    if len(bkey) != 82 or bkey[-4:] != double_sha256(bkey[:-4])[:4]:
+                        raise BKeyError("Invalid BIP32 HDkey WIF. Length or checksum incorrect")
                     # Derive key, chain, depth, child_index and fingerprint part from extended key WIF
                     if ord(bkey[45:46]):
                         is_private = False
